@@ -39,13 +39,15 @@ PARTIAL = [
     "n-partition group is the open finding D60, witnessed by C14_task_counterexample); that the Fused nodes the pass builds "
     "satisfy fusedOK (or have the D60 shape) is established by running the checker on every real Fused node, not by proof",
     "divisions/meta of Fused = those of exprs[0] is definitional in the model; tied by the families and the search",
-    "C14_substitute (values of other consumers unchanged by the substitution) is not stated separately",
+    "C14_substitute is proven per pass (every key of every old expression and the root keep their value, for any rank of the "
+    "acyclic plan); its lift through the outer `while True` (several passes: a rank for the plan after a pass) is not proven — "
+    "the harness re-checks the hypotheses substOKb on the plan before EVERY real pass instead",
 ]
 EXPLANATION = (
     "Model: _fusion_pass (dependents/dependencies maps, roots, DFS with stack/group name sets, npartitions/broadcast "
     "test, new-root rule, first group with len>1), the outer loop, substitute, Fused._task with nested groups at any position (merged without their dependency placeholders). "
     "Theorems: every group of the pass is GroupOK (C14_group_ok), the fused sub-graph computes what the unfused member "
-    "tasks compute for every interpretation (C14_task), meta (C14_meta), each successful pass strictly decreases the "
+    "tasks compute for every interpretation (C14_task), meta (C14_meta), the substitution of Fused G for G[0] leaves every other key's value unchanged (C14_substitute), each successful pass strictly decreases the "
     "number of reachable blockwise nodes (C14_terminates). Tie: real groups / plans / sub-graphs vs model on enumerated "
     "stub DAGs and real expression DAGs pass by pass (model driven with the string order of the real names); every real group also through the proven, order-independent checkers. "
     "Support: optimize(fuse=True) vs optimize(fuse=False) per output partition over the vetted program space."
@@ -569,7 +571,7 @@ def _count_blockwise(expr):
 
 def fam_native(ctx):
     """T3: every group the real code finds satisfies the proven (order-independent) checker groupOKb,
-    every plan the hypothesis planOKb of C14_terminates, every resulting Fused satisfies fusedOK
+    every plan the hypothesis planOKb of C14_terminates and substOKb of C14_substitute, every resulting Fused satisfies fusedOK
     (the hypothesis of C14_task); T2: the measure of C14_terminates is the number of reachable
     valid blockwise expressions of the real plan (before and after each pass)."""
     f = Family("native_groups[proven checkers groupOKb / planOKb / fusedOK + measure on the groups the unmodified code finds]")
@@ -601,6 +603,9 @@ def fam_native(ctx):
             reqs.append(f"fusion planok dag={pb.text} root={pb.root}")
             want.append("OK")
             inputs.append({"case": str(label), "check": "planok", "plan": pb.text})
+            reqs.append(f"fusion substok dag={pb.text} root={pb.root}")
+            want.append("OK")
+            inputs.append({"case": str(label), "check": "substok", "plan": pb.text})
             reqs.append(f"fusion measure dag={pb.text} root={pb.root}")
             want.append(str(_count_blockwise(before)))
             inputs.append({"case": str(label), "check": "measure", "plan": pb.text})
